@@ -228,7 +228,12 @@ def r3(R, repo):
   ok = astu.src(t2d.body) == '{str(x): y for x, y in enumerate(%s)}' % t2d.args.args[0].arg
   d = d2t.args.args[0].arg
   ok = ok and astu.src(d2t.body) == 'tuple((%s[str(i)] for i in range(len(%s))))' % (d, d)
-  R.check(ok, key_of(mod.rel, '_tuple_to_dict / _dict_to_tuple are inverse'), mod, 'tuples must be stored under the keys str(0..n-1) and rebuilt in index order')
+  lex = [x for x in ast.walk(d2t.body) if isinstance(x, ast.Call) and astu.call_name(x) == 'sorted' and astu.src(astu.kwarg(x, 'key')) not in ('int',)]
+  if lex:
+    R.fail(key_of(mod.rel, '_tuple_to_dict / _dict_to_tuple are inverse'), (mod, d2t), '_dict_to_tuple orders the entries with `%s`: the keys are the decimal strings str(0..n-1), whose lexicographic order (\'0\', \'1\', \'10\', \'11\', \'2\', ...) '
+           'differs from the index order as soon as there are more than 10 entries, so the chunks of a large array are concatenated in the wrong order' % astu.short(lex[0]))
+  else:
+    R.check(ok, key_of(mod.rel, '_tuple_to_dict / _dict_to_tuple are inverse'), mod, 'tuples must be stored under the keys str(0..n-1) and rebuilt in index order')
   shp = [n for n in astu.body_walk(ch.node) if isinstance(n, ast.Dict)]
   ok = any(astu.src(v) == '_tuple_to_dict(%s.shape)' % astu.params(ch.node)[0] for d_ in shp for v in d_.values)
   ok = ok and 'np.concatenate(_dict_to_tuple(data[\'chunks\']))' in astu.src(un.node) and '_dict_to_tuple(data[\'shape\'])' in astu.src(un.node)
@@ -351,6 +356,12 @@ def r5(R, repo):
               involved |= astu.names_loaded(d)
         ok = tp in involved and sp in involved or (sp in involved and any(x in involved for x in ('data_fields', 'name')))
         msg = 'the mismatch test does not compare the target with the saved state'
+    one_sided = [x for n_ in c.nodes if n_.kind == 'if' and any(c.edge_guarded(r_, n_, 'T') or c.edge_guarded(r_, n_, 'F') for r_ in named) for x in ast.walk(n_.ast)
+                 if (isinstance(x, ast.Call) and astu.call_tail(x) in ('issubset', 'issuperset')) or (isinstance(x, ast.Compare) and isinstance(x.ops[0], (ast.LtE, ast.GtE, ast.Lt, ast.Gt)) and 'keys' in astu.src(x))]
+    if qual == '_restore_namedtuple' and one_sided:
+      R.fail(key_of(f, 'mismatch raises with the path before restoring children'), (f, one_sided[0]), '_restore_namedtuple compares the field sets one-sidedly (`%s`): a field of the target that is missing from the saved state no longer raises, '
+             'it silently keeps the template\'s value' % astu.short(one_sided[0]))
+      continue
     if not named and not raises and not evid.raises_deep(repo, f, 'ValueError'):
       R.fail(key_of(f, 'mismatch raises with the path before restoring children'), f, '%s no longer raises ValueError for a target/state mismatch' % qual)
     else:
@@ -464,6 +475,8 @@ meta('C10',
          Mutant('C10-m7', SE, "  diff = set(map(str, xs.keys())).difference(states.keys())\n  if diff:\n    raise ValueError(\n      'The target dict keys and state dict keys do not match, target dict'\n      f' contains keys {diff} which are not present in state dict at path'\n      f' {current_path()}'\n    )\n\n", "", 'C10.R5'),
          Mutant('C10-m8', SE, "  ty_from_state_dict = _STATE_DICT_REGISTRY[ty][1]", "  ty_from_state_dict = _STATE_DICT_REGISTRY[ty][0]", 'C10.R7'),
          Mutant('C10-m9', SE, "      if isinstance(v, dict) and '__msgpack_chunked_array__' in v:", "      if isinstance(v, dict) and '__chunked_array__' in v:", 'C10.R3'),
+         Mutant('C10-m10', SE, "_dict_to_tuple = lambda dct: tuple(dct[str(i)] for i in range(len(dct)))", "_dict_to_tuple = lambda dct: tuple(dct[k] for k in sorted(dct))", 'C10.R3', why='seed C10-C (round 2)'),
+         Mutant('C10-m11', SE, "  if sd_keys != nt_keys:", "  if not sd_keys.issubset(nt_keys):", 'C10.R5', why='seed C10-D (round 2)'),
          Mutant('C10-b1', SE, "  ys = []\n  for i in range(len(state_dict)):\n    y = from_state_dict(xs[i], state_dict[str(i)], name=str(i))\n    ys.append(y)\n  return ys",
                 "  return [from_state_dict(x, state_dict[str(i)], name=str(i)) for i, x in enumerate(xs)]", kind='benign'),
      ])
